@@ -7,13 +7,15 @@ import BufrModel.Drv.JsonUtil
 import BufrModel.Drv.State
 import BufrModel.Drv.BitsOp
 import BufrModel.Drv.PathOp
+import BufrModel.Drv.SubsetOp
 open Lean Bufr.Drv
 
 /-- stateless operations: one line per op (keep sorted by property to ease merging) -/
 def statelessOps : List (String × (Json → J Json)) := [
   ("bits", opBits),
   ("path", opPath),
-  ("path-enum", opPathEnum)
+  ("path-enum", opPathEnum),
+  ("subset", opSubset)
 ]
 
 /-- operations that read or change the driver state -/
